@@ -248,7 +248,7 @@ fn main() {
             thorough: args.thorough,
             out: &args.out,
             orders: orders.clone(),
-            validation_suites: if args.thorough { vec!["ed25519", "p256", "secp256k1", "ed448", "ed25519-real"] } else { vec!["ed25519", "p256"] },
+            validation_suites: vec!["ed25519", "p256", "secp256k1", "ed448", "ed25519-real"],
             max_paths,
             wall_start: t0,
             extra_inconclusive: vec![],
